@@ -3912,13 +3912,15 @@ LEAN_OBLIGATIONS.update({
         partial_hypotheses=["the scan does not see setattr/globals()/C-level caches; thread interleavings below the granularity of whole shared accesses are only sampled"],
     ),
     "C17": dict(
-        modules=["Tumfl.Props.C17"],
-        obligations=["Tumfl.Props.C17_links", "Tumfl.Props.C17_walk", "Tumfl.Props.C17_replace", "Tumfl.Inst.schema_replace", "Tumfl.Inst.schema_links", "Tumfl.Inst.schema_walk", "Tumfl.Inst.schema_exercised", "Tumfl.Inst.schema_no_mixed"],
+        modules=["Tumfl.Props.C17", "Tumfl.Props.C17Replace"],
+        obligations=["Tumfl.Props.C17_links", "Tumfl.Props.C17_walk", "Tumfl.Props.C17_replace", "Tumfl.Props.C17_replace_exact", "Tumfl.Props.C17_replace_elsewhere",
+                     "Tumfl.Props.C17_replace_ancestors", "Tumfl.Props.C17_after_edits", "Tumfl.Props.C17_after_edits_exact", "Tumfl.Inst.schema_replace", "Tumfl.Inst.schema_links", "Tumfl.Inst.schema_walk", "Tumfl.Inst.schema_exercised", "Tumfl.Inst.schema_no_mixed"],
         extractors=["Schema"],
         tie_names=["T1:Schema (per class: structural slots by reflection, attributes yielded by ASTNode.__dir, linked and walked child slots, on a sample covering all 34 classes)",
                    "T2:resolve (resolved trees)"],
-        partial_hypotheses=["replace_child: decided per class and slot on the extracted schema (measured on the real method), not a theorem about arbitrary trees; the tree after "
-                            "dependency resolution is checked by the oracle streams only"],
+        partial_hypotheses=["replace_child: per class and slot on the extracted schema (measured on the real method) and, on the generic tree model, C17_replace_exact / _elsewhere / _ancestors (exactly the given "
+                            "occurrence, nothing else); after any sequence of replacements by well-typed subtrees the tree is a proper tree again (C17_after_edits); that the resolver's edits ARE such replacements "
+                            "(it also re-links by hand): oracle streams on resolved trees"],
     ),
     "C18": dict(
         modules=["Tumfl.Props.C17"],
